@@ -165,64 +165,73 @@ package queueing
 //@   ensures forall i in 0..len(result) :: result[i] == p.stages[i]
 //@   assigns nothing
 
-// ---- nonlinear facts about the occupancy index (stage - base) * width + lane ----
-//@ lemma slotInj(w, a1, l1, a2, l2)
-//@   property C15
-//@   requires 0 <= l1 && l1 < w && 0 <= l2 && l2 < w && a1 * w + l1 == a2 * w + l2
-//@   label C15.lemma.slotinj
-//@   ensures a1 == a2 && l1 == l2
-
 // ---- advanceItems (phase 2 of Tick) ----
-// record j is exactly as it was on entry / has been processed by the stage scan
+// goff[s] = offset of the row of stage s in the occupancy table, (s - minStage) * width exactly as the code computes it.
+// Rows are at least `width` apart (goffMono): with 0 <= Lane < width this makes the slot of a (stage, lane) pair
+// injective by linear reasoning only. slotG(j) = slot of record j.
+//@ func slotG(p, goff, j) = goff[p.stages[j].Stage] + p.stages[j].Lane
+//@ pred goffDef(goff, base, w, lo, hi) = forall s in lo..hi :: goff[s] == (s - base) * w
+//@ pred goffMono(goff, w, lo, hi) = forall a in lo..hi :: forall b in lo..hi :: a < b ==> goff[a] + w <= goff[b]
+// the occupancy table is exact: every record's slot is set (occSound); a set slot k is held by record own[k] (occOwned)
+//@ pred occSound(p, occ, goff) = forall j in 0..len(p.stages) :: occ[slotG(p, goff, j)]
+//@ pred occOwned(p, occ, goff, own) = forall k in 0..len(occ) :: occ[k] ==> 0 <= own[k] && own[k] < len(p.stages) && slotG(p, goff, own[k]) == k
+// record j is exactly as it was on entry / has taken its step (dwell counter down by one, or at most one stage up)
 //@ pred recSame(p, j) = p.stages[j].Stage == old(p.stages)[j].Stage && p.stages[j].CycleLeft == old(p.stages)[j].CycleLeft
 //@ pred recDone(p, j) = (old(p.stages)[j].CycleLeft > 0 ==> p.stages[j].Stage == old(p.stages)[j].Stage && p.stages[j].CycleLeft == old(p.stages)[j].CycleLeft - 1) && (old(p.stages)[j].CycleLeft == 0 ==> p.stages[j].CycleLeft == 0 && (p.stages[j].Stage == old(p.stages)[j].Stage || p.stages[j].Stage == old(p.stages)[j].Stage + 1))
+//@ pred recKeep(p) = forall j in 0..len(p.stages) :: p.stages[j].Lane == old(p.stages)[j].Lane && p.stages[j].Item == old(p.stages)[j].Item
 //@ pred advFrame(p) = len(p.stages) == old(len(p.stages)) && ref(p.stages) == old(ref(p.stages)) && off(p.stages) == old(off(p.stages))
-//@ func recSlotOld(p, j, base) = (old(p.stages)[j].Stage - base) * p.width + old(p.stages)[j].Lane
-// the occupancy table: (A) every record's slot is set; (B) a set slot k is held by the record that owned k on entry
-// (own0[k], it has not moved) or by the record that owned the slot one stage below (own0[k - width], it has moved up);
-// distinct records have distinct slots (the slot encoding is injective: lemma slotInj, instantiated on the entry state)
-//@ pred occA(p, occ, base) = forall j in 0..len(p.stages) :: occ[recSlot(p, j, base)]
-//@ pred occB(p, occ, own0, base) = forall k in 0..len(occ) :: occ[k] ==> (0 <= own0[k] && own0[k] < len(p.stages) && recSlotOld(p, own0[k], base) == k && recSlot(p, own0[k], base) == k) || (0 <= own0[k - p.width] && own0[k - p.width] < len(p.stages) && recSlotOld(p, own0[k - p.width], base) == k - p.width && recSlot(p, own0[k - p.width], base) == k)
-//@ pred ownF0(p, own0, base) = forall j in 0..len(p.stages) :: own0[recSlotOld(p, j, base)] == j
-//@ pred slotDistinct(p, base) = forall a in 0..len(p.stages) :: forall b in 0..len(p.stages) :: a != b ==> recSlot(p, a, base) != recSlot(p, b, base)
+//@ pred stagesIn(p, lo, hi) = forall j in 0..len(p.stages) :: lo <= p.stages[j].Stage && p.stages[j].Stage <= hi
 //@ pred advRange(p, lo, hi) = forall j in 0..len(p.stages) :: lo <= old(p.stages)[j].Stage && (old(p.stages)[j].Stage <= hi || old(p.stages)[j].Stage == p.numStages - 1)
+// hypothesis of the progress clause: dwell cycles only at stage 0, and nothing is waiting at the last stage (the sink took it)
 //@ pred advHyp(p) = old(dwellOK(p)) && (forall j in 0..old(len(p.stages)) :: old(p.stages)[j].Stage < p.numStages - 1)
-// rows `stage` and `stage + 1` of the table are inside it
-//@ pred rowsIn(p, occ, stage, base) = 0 <= (stage - base) * p.width && (stage - base) * p.width + 2 * p.width <= len(occ)
 
 //@ fn (*Pipeline[T]).advanceItems
 //@   property C15
 //@   requires pipeWF(p) && len(p.stages) > 0
-//@   use forall a in 0..len(p.stages), b in 0..len(p.stages) :: slotInj(p.width, p.stages[a].Stage, p.stages[a].Lane, p.stages[b].Stage, p.stages[b].Lane)
-//@   use forall a in 0..len(p.stages), b in 0..len(p.stages) :: slotInj(p.width, p.stages[a].Stage - 1, p.stages[a].Lane, p.stages[b].Stage, p.stages[b].Lane)
 //@   label C15.adv.shape
-//@   ensures advFrame(p)
+//@   ensures advFrame(p) && p.width == old(p.width) && p.numStages == old(p.numStages)
+//@   label C15.adv.keep
+//@   ensures recKeep(p)
 //@   label C15.adv.last
 //@   ensures forall j in 0..len(p.stages) :: old(p.stages)[j].Stage == p.numStages - 1 ==> recSame(p, j)
-//@   label C15.adv.done
+//@   label C15.adv.step
 //@   ensures forall j in 0..len(p.stages) :: old(p.stages)[j].Stage < p.numStages - 1 ==> recDone(p, j)
 //@   label C15.adv.wf
 //@   ensures pipeWF(p)
+//@   label C15.adv.dwell
+//@   ensures old(dwellOK(p)) ==> dwellOK(p)
 //@   label C15.adv.progress
 //@   ensures advHyp(p) ==> (forall j in 0..len(p.stages) :: old(p.stages)[j].CycleLeft == 0 ==> p.stages[j].Stage == old(p.stages)[j].Stage + 1)
 //@   assigns elems(p.stages)
+//@   loop 0: ghost goff = mapof(s, (s - minStage) * p.width)
+//@   loop 0: ghost gown0 = buildOccupancy_own
+//@   loop 0: backedge goff = goff
+//@   loop 0: backedge gown0 = gown1
 //@   loop 0: invariant minStage - 1 <= stage && stage <= maxStage && maxStage <= lastStage - 1 && lastStage == p.numStages - 1 && occBase == minStage && 0 <= minStage && n == len(p.stages)
-//@   loop 0: invariant advFrame(p) && fresh(occ) && len(occ) == (maxStage - minStage + 3) * p.width && recsOK(p) && advRange(p, minStage, maxStage)
-//@   loop 0: invariant stage >= minStage ==> rowsIn(p, occ, stage, minStage)
-//@   loop 0: invariant slotDistinct(p, minStage)
-//@   loop 0: invariant occA(p, occ, minStage)
-//@   loop 0: invariant occB(p, occ, buildOccupancy_own, minStage)
-//@   loop 0: invariant ownF0(p, buildOccupancy_own, minStage)
+//@   loop 0: invariant advFrame(p) && fresh(occ)
+//@   loop 0: invariant goffDef(goff, minStage, p.width, minStage, maxStage + 4)
+//@   loop 0: invariant goffMono(goff, p.width, minStage, maxStage + 4)
+//@   loop 0: invariant goff[minStage] == 0 && len(occ) == goff[maxStage + 3] && goff[stage + 1] == (stage + 1 - occBase) * p.width
+//@   loop 0: invariant recsOK(p) && stagesIn(p, minStage, maxStage + 1) && advRange(p, minStage, maxStage)
+//@   loop 0: invariant distinctOK(p)
+//@   loop 0: invariant occSound(p, occ, goff)
+//@   loop 0: invariant occOwned(p, occ, goff, gown0)
+//@   loop 0: invariant recKeep(p)
 //@   loop 0: invariant forall j in 0..len(p.stages) :: old(p.stages)[j].Stage <= stage || old(p.stages)[j].Stage > maxStage ==> recSame(p, j)
 //@   loop 0: invariant forall j in 0..len(p.stages) :: stage < old(p.stages)[j].Stage && old(p.stages)[j].Stage <= maxStage ==> recDone(p, j)
 //@   loop 0: invariant advHyp(p) ==> (forall j in 0..len(p.stages) :: stage < old(p.stages)[j].Stage && old(p.stages)[j].CycleLeft == 0 ==> p.stages[j].Stage == old(p.stages)[j].Stage + 1)
+//@   loop 1: ghost gown1 = gown0
+//@   loop 1: backedge gown1 = (p.stages[athead(i)].Stage == athead(p.stages[i].Stage) ? gown1 : upd(gown1, goff[stage + 1] + p.stages[athead(i)].Lane, athead(i)))
 //@   loop 1: invariant minStage <= stage && stage <= maxStage && maxStage <= lastStage - 1 && lastStage == p.numStages - 1 && occBase == minStage && 0 <= minStage && n == len(p.stages) && 0 <= i && i <= n
-//@   loop 1: invariant advFrame(p) && fresh(occ) && len(occ) == (maxStage - minStage + 3) * p.width && recsOK(p) && advRange(p, minStage, maxStage)
-//@   loop 1: invariant rowsIn(p, occ, stage, minStage)
-//@   loop 1: invariant slotDistinct(p, minStage)
-//@   loop 1: invariant occA(p, occ, minStage)
-//@   loop 1: invariant occB(p, occ, buildOccupancy_own, minStage)
-//@   loop 1: invariant ownF0(p, buildOccupancy_own, minStage)
+//@   loop 1: invariant advFrame(p) && fresh(occ)
+//@   loop 1: invariant goffDef(goff, minStage, p.width, minStage, maxStage + 4)
+//@   loop 1: invariant goffMono(goff, p.width, minStage, maxStage + 4)
+//@   loop 1: invariant goff[minStage] == 0 && len(occ) == goff[maxStage + 3] && goff[stage + 1] == (stage + 1 - occBase) * p.width && goff[stage] == (stage - occBase) * p.width
+//@   loop 1: invariant recsOK(p) && stagesIn(p, minStage, maxStage + 1) && advRange(p, minStage, maxStage)
+//@   loop 1: invariant distinctOK(p)
+//@   loop 1: invariant occSound(p, occ, goff)
+//@   loop 1: invariant occOwned(p, occ, goff, gown1)
+//@   loop 1: invariant recKeep(p)
 //@   loop 1: invariant forall j in 0..len(p.stages) :: old(p.stages)[j].Stage < stage || (old(p.stages)[j].Stage == stage && j >= i) || old(p.stages)[j].Stage > maxStage ==> recSame(p, j)
 //@   loop 1: invariant forall j in 0..len(p.stages) :: (stage < old(p.stages)[j].Stage && old(p.stages)[j].Stage <= maxStage) || (old(p.stages)[j].Stage == stage && j < i) ==> recDone(p, j)
 //@   loop 1: invariant advHyp(p) ==> (forall j in 0..len(p.stages) :: (stage < old(p.stages)[j].Stage || (old(p.stages)[j].Stage == stage && j < i)) && old(p.stages)[j].CycleLeft == 0 ==> p.stages[j].Stage == old(p.stages)[j].Stage + 1)
